@@ -1731,7 +1731,8 @@ def create_valves(net, junctions, elements, et, inner_diameter_mm, opened=True, 
         if not len(el):
             continue
         bs = net[table].loc[el, joining_busses].values
-        not_connected_mask = ~np.isin(b_arr[et_arr == typ], bs)
+        # row-wise: every valve has to sit at one of the junctions of its own pipe
+        not_connected_mask = ~np.any(b_arr[et_arr == typ] == bs, axis=1, keepdims=True)
         if np.any(not_connected_mask):
             bus_element_pairs = zip(el_arr[et_arr == typ][:, None][not_connected_mask].tolist(),
                                      b_arr[et_arr == typ][not_connected_mask].tolist())
